@@ -477,6 +477,9 @@ func seqProfile(prop string, rng *simrt.Rng, tier string) (*Profile, map[string]
 		k["coherence"] = 1
 		k["image_restart"] = 1
 		if rng.Chance(0.3) {
+			k["allocfail"] = 1 // short writes / aborted allocations: allocators must still agree with the disk
+		}
+		if rng.Chance(0.3) {
 			k["many_objects"] = 1 // more live objects than the inode cache holds
 		}
 	case "C11":
@@ -519,7 +522,40 @@ func (seqEngine) Gen(prop string, seed uint64, tier string) *Spec {
 			g.emit(&Op{K: "create", H: 0, N: fmt.Sprintf("m%d", i), How: 1})
 		}
 	}
+	burstAt := -1
+	if rng.Chance(0.12) {
+		burstAt = rng.Intn(n)
+	}
 	for i := 0; i < n; i++ {
+		if i == burstAt {
+			// a directory full of names at / near the announced maximum length, then a restart
+			// (cold name cache) and look-ups, removals and re-creations of some of them
+			g.emit(&Op{K: "mkdir", H: 0, N: fmt.Sprintf("burst%d", i)})
+			did := g.ops[len(g.ops)-1].ID
+			cnt := 18 + rng.Intn(30)
+			var nms []string
+			for j := 0; j < cnt; j++ {
+				nm := fmt.Sprintf("#namemax%+d:%d_", -rng.Intn(3)*rng.Intn(8), j)
+				nms = append(nms, nm)
+				g.emit(&Op{K: []string{"create", "create", "mkdir", "symlink"}[rng.Intn(4)], H: did, N: nm, How: 1, Len: 9, Pat: 1})
+			}
+			if rng.Chance(0.7) {
+				g.emit(&Op{K: "restart"})
+			}
+			for j := 0; j < 8; j++ {
+				nm := nms[len(nms)-1-rng.Intn(min(6, len(nms)))]
+				switch rng.Intn(4) {
+				case 0, 1:
+					g.emit(&Op{K: "lookup", H: did, N: nm})
+				case 2:
+					g.emit(&Op{K: "create", H: did, N: nm, How: 1})
+				default:
+					g.emit(&Op{K: "rename", H: did, N: nm, H2: did, N2: nm + "x"})
+				}
+			}
+			g.emit(&Op{K: "readdirplus", H: did, Len: 100000})
+			continue
+		}
 		if i == bigAt {
 			// a file long enough that removing it needs several transactions
 			name := "big"
